@@ -655,6 +655,103 @@ func c11Pool(seed int64, idx int) []c11Call {
 
 var _ = io.EOF
 
+// c11MapLenHistories: the pooled map context (key/value item slice, recorded length) is reused by
+// the next map of any type, sorted or not. Every triple of lengths, each step sorted or unordered
+// and through a rotating interpreter; the expected text is written out from the map itself.
+func c11MapLenHistories(c *rt.Ctx, sub0 int) {
+	lens := []int{0, 1, 2, 3, 4, 7, 9}
+	mk := func(n, salt int) (any, string) {
+		if salt%2 == 0 {
+			m := map[string]int{}
+			var parts []string
+			for i := 0; i < n; i++ {
+				m[fmt.Sprintf("k%02d_%d", i, salt)] = i*10 + salt
+				parts = append(parts, fmt.Sprintf(`"k%02d_%d":%d`, i, salt, i*10+salt))
+			}
+			return m, "{" + strings.Join(parts, ",") + "}"
+		}
+		m := map[int]map[string]string{}
+		var parts []string
+		for i := 0; i < n; i++ {
+			m[10+i] = map[string]string{"a": fmt.Sprintf("v%d%d", i, salt), "b": "w"}
+			parts = append(parts, fmt.Sprintf(`"%d":{"a":"v%d%d","b":"w"}`, 10+i, i, salt))
+		}
+		return m, "{" + strings.Join(parts, ",") + "}"
+	}
+	scheme := &gojson.ColorScheme{}
+	encs := []struct {
+		name string
+		f    func(x any, unordered bool) ([]byte, error)
+	}{
+		{"Marshal", func(x any, u bool) ([]byte, error) {
+			if u {
+				return gojson.MarshalWithOption(x, gojson.UnorderedMap())
+			}
+			return gojson.Marshal(x)
+		}},
+		{"MarshalIndent", func(x any, u bool) ([]byte, error) {
+			var b []byte
+			var err error
+			if u {
+				b, err = gojson.MarshalIndentWithOption(x, "", " ", gojson.UnorderedMap())
+			} else {
+				b, err = gojson.MarshalIndent(x, "", " ")
+			}
+			var cb bytes.Buffer
+			if err == nil {
+				if e := stdjson.Compact(&cb, b); e != nil {
+					return b, nil
+				}
+			}
+			return cb.Bytes(), err
+		}},
+		{"Colorize", func(x any, u bool) ([]byte, error) {
+			if u {
+				return gojson.MarshalWithOption(x, gojson.Colorize(scheme), gojson.UnorderedMap())
+			}
+			return gojson.MarshalWithOption(x, gojson.Colorize(scheme))
+		}},
+	}
+	sub := sub0
+	histories := 0
+	for _, a := range lens {
+		for _, b := range lens {
+			for _, cc := range lens {
+				for mode := 0; mode < 8; mode++ {
+					sub++
+					if (a+b+cc+mode)%2 == 1 && a != b && b != cc {
+						continue // half of the all-different triples; every triple with a repeated length stays
+					}
+					if !c.Cur(sub, fmt.Sprintf("shapes=core\nmap lengths %d,%d,%d mode %d", a, b, cc, mode)) {
+						continue
+					}
+					histories++
+					for step, n := range []int{a, b, cc} {
+						unordered := mode>>uint(step)&1 == 1
+						x, want := mk(n, (sub+step)%4)
+						e := encs[(sub/8+step)%len(encs)]
+						var out []byte
+						var err error
+						pan, msg, _ := rt.Guard(func() { out, err = e.f(x, unordered) })
+						c.Eval(1)
+						got, wantC := string(out), want
+						if unordered && !pan && err == nil {
+							got, wantC = canonJSON(out), canonJSON([]byte(want))
+						}
+						if pan || err != nil || got != wantC {
+							c.Violate(rt.Violation{Monitor: "history", Entry: "map-length-history", Kind: "differs-from-written-out-expectation", Ctx: fmt.Sprintf("step%d:unordered=%v", step, unordered),
+								Detail: fmt.Sprintf("maps of %d, %d, %d members (unordered bits %03b): step %d through %s gave %s err=%v panic=%v %s; want %s", a, b, cc, mode, step, e.name, rt.Q(out), err, pan, msg, want), Sub: sub})
+							break
+						}
+					}
+				}
+			}
+		}
+	}
+	c.Obs("map_length_histories", int64(histories))
+	c.NonTrivial("map-length-histories")
+}
+
 func init() {
 	register(&Prop{
 		ID: "C11",
@@ -675,6 +772,9 @@ func init() {
 			return pool[k].run(newHandles())
 		},
 		Run: func(c *rt.Ctx) {
+			if c.Idx%32 == 5 {
+				c11MapLenHistories(c, 100000)
+			}
 			pool := c11Pool(c.Seed, c.Idx)
 			r := c.RNG(1)
 			n := 150 + r.Intn(250)
